@@ -204,6 +204,12 @@ func (f *frame) safeEval(env *specEnv, cl *Clause) (res *Term) {
 			if se, ok := r.(specError); ok {
 				f.c.warn = append(f.c.warn, fmt.Sprintf("SPEC-ERROR %s:%d: %s in %q", cl.File, cl.Line, se.msg, cl.Text))
 				f.c.specErrors++
+				if strings.Contains(se.msg, "unknown identifier") {
+					// the clause names a program variable that no longer exists (a
+					// renamed local): the CONTRACT is stale, which says nothing about
+					// the property - whatever else fails in this function is undecided
+					f.c.staleContract = true
+				}
 				res = nil
 				return
 			}
